@@ -13,17 +13,32 @@ import (
 // two SSA values denoting the same source-level access path compare equal
 // (go/ssa performs no CSE: `*cfg.X` loaded twice gives two values).
 // Returns "" for values that have no stable key (calls, phis → identity key).
+var exprKeyMemo = map[ssa.Value]string{}
+
 func exprKey(v ssa.Value) string {
 	return exprKeyD(v, 0)
 }
 
+// exprKeyD is memoised per value so that the key of a value does not depend on
+// where in a larger expression it was reached.
 func exprKeyD(v ssa.Value, d int) string {
 	if v == nil {
 		return ""
 	}
-	if d > 12 {
+	if k, ok := exprKeyMemo[v]; ok {
+		return k
+	}
+	if d > 80 {
 		return "@" + v.Name()
 	}
+	k := exprKeyCompute(v, d)
+	if d <= 80 {
+		exprKeyMemo[v] = k
+	}
+	return k
+}
+
+func exprKeyCompute(v ssa.Value, d int) string {
 	switch x := v.(type) {
 	case *ssa.Const:
 		if x.Value == nil {
